@@ -58,11 +58,12 @@ VARIABLES disk,     \* f -> [ex, v]            the JSON file (raw)
           reg,      \* sequence of [h, dead]   _buffered_collections in insertion order (dead: the document object was
                     \*                         dropped by remove() inside a block; it stays registered with an empty copy)
           depth, cap, capStack,
+          dirs,     \* set of job files whose job directory exists (Job.clear() is a no-op on a job that was never initialised)
           writers,  \* f -> set of handles that wrote f inside the current outermost block (ghost)
           dev,      \* set of deviations that fired in this behaviour (ghost; "D1", "D2")
           last,     \* observation: [op, h, k, k2, i, form, v, res]
           steps     \* number of actions taken (bounds the exhaustive runs exactly, whatever the number of TLC workers)
-vars == <<disk, ideal, open, mem, buf, reg, depth, cap, capStack, writers, dev, last, steps>>
+vars == <<disk, ideal, open, mem, buf, reg, depth, cap, capStack, dirs, writers, dev, last, steps>>
 
 Handles == {<<f, i>> : f \in Files, i \in 1..(IF NHJob > NHProj THEN NHJob ELSE NHProj)}
 LiveHandles == {h \in Handles : h[2] <= (IF h[1] \in JobFiles THEN NHJob ELSE NHProj)}
@@ -226,6 +227,7 @@ Obs(op, h, k, k2, i, form, v, res) ==
   last' = [op |-> op, h |-> h, k |-> k, k2 |-> k2, i |-> i, form |-> form, v |-> v, res |-> res]
 Apply(st, h) == /\ disk' = st.disk /\ mem' = st.mem /\ buf' = st.buf /\ reg' = st.reg /\ dev' = st.dev
                 /\ open' = [open EXCEPT ![h] = TRUE]
+                /\ dirs' = dirs \cup {h[1]}                  \* a document access initialises the job
                 /\ UNCHANGED <<depth, cap, capStack>>
 Wrote(h)   == writers' = IF depth > 0 THEN [writers EXCEPT ![h[1]] = @ \cup {h}] ELSE writers
 IdealIs(f, v) == ideal' = [ideal EXCEPT ![f] = v]
@@ -354,7 +356,7 @@ EnterBuffered(c) ==
   /\ cap' = IF c.has THEN c.c ELSE cap
   /\ LET s == IF c.has /\ c.c < BufSize(buf) THEN FlushAll(St) ELSE St IN     \* set_buffer_capacity forces a flush
      /\ disk' = s.disk /\ mem' = s.mem /\ buf' = s.buf /\ reg' = s.reg /\ dev' = s.dev
-  /\ UNCHANGED <<ideal, open, writers>>
+  /\ UNCHANGED <<ideal, open, writers, dirs>>
   /\ Obs("enter", NoH, NoK, NoK, IF c.has THEN c.c ELSE 0, IF c.has THEN "cap" ELSE "", JNull, ROk(JNull))
 
 ExitBuffered ==
@@ -367,7 +369,7 @@ ExitBuffered ==
         /\ cap' = IF top.has THEN top.c ELSE cap
         /\ capStack' = SubSeq(capStack, 1, Len(capStack) - 1)
   /\ writers' = IF depth = 1 THEN [f \in Files |-> {}] ELSE writers
-  /\ UNCHANGED <<ideal, open>>
+  /\ UNCHANGED <<ideal, open, dirs>>
   /\ Obs("exit", NoH, NoK, NoK, 0, "", JNull, ROk(JNull))
 
 (* life cycle of the job behind a job document (outside blocks only: removing or re-keying a job whose
@@ -379,8 +381,27 @@ CloseAll(f) == /\ open' = [x \in Handles |-> IF x[1] = f THEN FALSE ELSE open[x]
 RemoveJob(h) ==                  \* job.remove(); the next document access re-initialises the job with an empty document
   /\ depth = 0 /\ h[1] \in JobFiles
   /\ disk' = [disk EXCEPT ![h[1]] = Absent] /\ IdealIs(h[1], EmptyDoc) /\ CloseAll(h[1])
+  /\ dirs' = dirs \ {h[1]}
   /\ UNCHANGED <<buf, reg, depth, cap, capStack, writers, dev>>
   /\ Obs("remove", h, NoK, NoK, 0, "", JNull, ROk(JNull))
+\* job.clear() / job.reset(): remove all job data but not the job.  The document is cleared THROUGH THE HANDLE'S
+\* DOCUMENT OBJECT (mapping clear: no load, empty copy, save - to the file, or to the buffer inside a block), so every
+\* other handle sees it; on a job whose directory does not exist clear() does nothing and reset() only initialises.
+JobClear(h, op, init) ==
+  LET f == h[1] IN
+  /\ f \in JobFiles
+  /\ IF f \in dirs
+     THEN LET s2 == Save(SetMem(St, h, EmptyDoc), h) IN
+          /\ disk' = s2.disk /\ mem' = s2.mem /\ buf' = s2.buf /\ reg' = s2.reg /\ dev' = s2.dev
+          /\ open' = [open EXCEPT ![h] = TRUE] /\ Wrote(h)
+     ELSE UNCHANGED <<disk, mem, buf, reg, dev, open, writers>>
+  /\ dirs' = IF init THEN dirs \cup {f} ELSE dirs
+  /\ IdealIs(f, EmptyDoc)
+  /\ UNCHANGED <<depth, cap, capStack>>
+  /\ Obs(op, h, NoK, NoK, 0, "", JNull, ROk(JNull))
+ClearJob(h) == JobClear(h, "jclear", FALSE)
+ResetJob(h) == JobClear(h, "jreset", TRUE)
+
 \* job.remove(); job.init() INSIDE a block - supported by the code only while the document file is not on disk
 \* (otherwise the flush raises MetadataError by design), no other handle of the job holds a document object
 \* and the buffer is not at its capacity: remove() clears the document object INTO THE BUFFER before dropping it,
@@ -397,19 +418,20 @@ RemoveReinit(h) ==
      /\ disk' = s2.disk /\ mem' = s2.mem /\ buf' = s2.buf /\ reg' = s2.reg /\ dev' = s2.dev
      /\ open' = [open EXCEPT ![h] = FALSE]
      /\ IdealIs(f, EmptyDoc) /\ Wrote(h)
+     /\ dirs' = dirs \cup {f}
      /\ UNCHANGED <<depth, cap, capStack>>
      /\ Obs("reinit", h, NoK, NoK, 0, "", JNull, ROk(JNull))
 RekeyJob(h) ==                   \* job.sp.r = <new>: the directory moves, the document moves with it
   /\ depth = 0 /\ h[1] \in JobFiles
   /\ CloseAll(h[1])
-  /\ UNCHANGED <<disk, ideal, buf, reg, depth, cap, capStack, writers, dev>>
+  /\ UNCHANGED <<disk, ideal, buf, reg, depth, cap, capStack, dirs, writers, dev>>
   /\ Obs("rekey", h, NoK, NoK, 0, "", JNull, ROk(JNull))
 
 ---------------------------------------------------------------------------
 Init == /\ disk = [f \in Files |-> Absent] /\ ideal = [f \in Files |-> EmptyDoc]
         /\ open = [h \in Handles |-> FALSE] /\ mem = [h \in Handles |-> EmptyDoc]
         /\ buf = [f \in Files |-> NoEntry] /\ reg = <<>>
-        /\ depth = 0 /\ cap = DefaultCap /\ capStack = <<>>
+        /\ depth = 0 /\ cap = DefaultCap /\ capStack = <<>> /\ dirs = {}
         /\ writers = [f \in Files |-> {}] /\ dev = {}
         /\ steps = 0
         /\ last = [op |-> "init", h |-> NoH, k |-> NoK, k2 |-> NoK, i |-> 0, form |-> "", v |-> JNull, res |-> ROk(JNull)]
@@ -439,6 +461,7 @@ NextOp ==
        \/ "remove" \in Ops /\ RemoveJob(h)
        \/ "rekey" \in Ops /\ RekeyJob(h)
        \/ "reinit" \in Ops /\ RemoveReinit(h)
+       \/ "jclear" \in Ops /\ (ClearJob(h) \/ ResetJob(h))
   \/ "buffer" \in Ops /\ \E c \in Caps : EnterBuffered(c)
   \/ "buffer" \in Ops /\ ExitBuffered
 Next == NextOp /\ steps' = steps + 1
@@ -480,8 +503,8 @@ HypoDev == UNION {IF depth > 0 /\ buf[h[1]].in THEN TopLoss(mem[h], buf[h[1]].co
 \* level = steps + 1 (level 1 = initial state).  Proof runs: VIEW ProofView (any number of workers, exact).
 \* Graph export: VIEW GraphView with ONE worker (breadth first: a state is kept with its smallest step count).
 LevelBound == steps + 1 <= MaxLevel
-ProofView == <<disk, ideal, open, mem, buf, reg, depth, cap, capStack, writers, dev, steps>>
-GraphView == <<disk, ideal, open, mem, buf, reg, depth, cap, capStack, writers, dev, last>>
+ProofView == <<disk, ideal, open, mem, buf, reg, depth, cap, capStack, dirs, writers, dev, steps>>
+GraphView == <<disk, ideal, open, mem, buf, reg, depth, cap, capStack, dirs, writers, dev, last>>
 
 ---------------------------------------------------------------------------
 (* model-checking constants (cfg files cannot contain records) *)
@@ -508,9 +531,9 @@ CapsTwo == {CapNone, [has |-> TRUE, c |-> 10]}
 CapsNoneOnly == {CapNone}
 CapsZero == {CapNone, [has |-> TRUE, c |-> 0]}
 OpsAll  == {"set", "del", "update", "setdefault", "pop", "clear", "reset", "nset", "append", "lset", "read", "get",
-            "setbad", "remove", "rekey", "reinit", "buffer"}
-OpsDict == OpsAll \ {"buffer", "remove", "rekey", "reinit"}
+            "setbad", "remove", "rekey", "reinit", "jclear", "buffer"}
+OpsDict == OpsAll \ {"buffer", "remove", "rekey", "reinit", "jclear"}
 OpsBuf  == {"set", "del", "clear", "reset", "read", "buffer"}
 OpsBufN == {"set", "nset", "append", "update", "pop", "read", "buffer"}
-OpsLife == {"set", "read", "reset", "remove", "rekey", "reinit", "buffer"}
+OpsLife == {"set", "read", "remove", "rekey", "reinit", "jclear", "buffer"}
 =============================================================================
